@@ -3,8 +3,16 @@ package main
 import (
 	"fmt"
 	"go/ast"
+	"go/constant"
 	"go/types"
 )
+
+func constantString(tv types.TypeAndValue) string {
+	if tv.Value.Kind() == constant.String {
+		return constant.StringVal(tv.Value)
+	}
+	return tv.Value.ExactString()
+}
 
 func isBuilderType(t types.Type) bool {
 	n, ok := types.Unalias(t).(*types.Named)
@@ -25,6 +33,8 @@ func (fv *FuncVC) intrinsic(call *ast.CallExpr, f *types.Func, full string, st *
 		return fv.builderCall(call, full, st)
 	case "(*sync.Mutex).Lock", "(*sync.Mutex).Unlock":
 		return fv.mutexCall(call, full, st)
+	case "(*os/exec.Cmd).Run":
+		return fv.execRun(call, st)
 	}
 	return nil, false
 }
@@ -414,10 +424,223 @@ func sortStringsInPlace(xs []string) {
 	}
 }
 
-func (fv *FuncVC) mutexCall(call *ast.CallExpr, full string, st *State) ([]Val, bool) {
-	return nil, false
+// ---- lock discipline (C20)
+//
+// Proof rule (sequential rule of concurrent separation logic for a mutex protecting data):
+// fields declared `//@ guarded T.f by lock` may be read or written only while the current
+// goroutine holds T.lock; after Lock() their values are unknown (other goroutines may have
+// run their critical sections) except for what write-once monotonicity gives; pointer-typed
+// guarded fields are write-once: a store must happen while the field is nil and must store a
+// non-nil pointer, so that "cached" can never be undone. Soundness of this rule for sync.Mutex
+// under the Go memory model is the trusted meta-theorem.
+
+func (fv *FuncVC) guardsOf(structT types.Type) []GuardDecl {
+	n, ok := types.Unalias(structT).(*types.Named)
+	if !ok || n.Obj().Pkg() == nil {
+		return nil
+	}
+	q := n.Obj().Pkg().Path() + "." + n.Obj().Name()
+	var out []GuardDecl
+	for _, g := range fv.w.Guarded {
+		if g.Struct == q {
+			out = append(out, g)
+		}
+	}
+	return out
 }
 
-func (fv *FuncVC) guardedAccess(st *State, structT types.Type, field string, base Val, text string) {}
+func heldHeap(structT types.Type, lockField string) string {
+	n := types.Unalias(structT).(*types.Named)
+	return "Held$" + sanitize(n.Obj().Pkg().Path()+"."+n.Obj().Name()+"."+lockField)
+}
 
-func (fv *FuncVC) guardedPointee(st *State, ptrExpr ast.Expr, p Val) {}
+// lockOwner splits `x.lock` into the owner expression x (pointer to struct) and the lock field.
+func (fv *FuncVC) lockOwner(e ast.Expr) (ast.Expr, types.Type, string, bool) {
+	se, ok := ast.Unparen(e).(*ast.SelectorExpr)
+	if !ok {
+		return nil, nil, "", false
+	}
+	t := types.Unalias(fv.typeOf(se.X))
+	if p, ok := t.Underlying().(*types.Pointer); ok {
+		t = types.Unalias(p.Elem())
+	} else {
+		return nil, nil, "", false
+	}
+	if _, ok := t.Underlying().(*types.Struct); !ok {
+		return nil, nil, "", false
+	}
+	return se.X, t, se.Sel.Name, true
+}
+
+func (fv *FuncVC) mutexCall(call *ast.CallExpr, full string, st *State) ([]Val, bool) {
+	se, ok := ast.Unparen(call.Fun).(*ast.SelectorExpr)
+	if !ok {
+		return nil, false
+	}
+	ownerExpr, structT, lockField, ok := fv.lockOwner(se.X)
+	if !ok {
+		return nil, false
+	}
+	owner := fv.eval(ownerExpr, st)
+	n := fv.nextOrd("nilptr")
+	fv.oblig(st, "safe", fmt.Sprintf("safe:nilptr@%d", n), "lock of "+fv.text(se.X), mkNot(mkEq(owner.T, "nil")))
+	fv.addFact(st, mkNot(mkEq(owner.T, "nil")))
+	h := heldHeap(structT, lockField)
+	fv.heapDecl(h, arraySort(SRef, SBoolS))
+	fv.usedExterns["sync.Mutex (intrinsic): lock-invariant rule — guarded fields are stable while the mutex is held and unknown (modulo write-once) after Lock"] = true
+	k := fv.nextOrd("lockop")
+	H := fv.getHeap(st, h)
+	if full == "(*sync.Mutex).Lock" {
+		fv.oblig(st, "lock", fmt.Sprintf("lock:notheld@%d", k), "Lock() while the mutex is not already held by this goroutine (sync.Mutex is not reentrant)", mkNot(sx("select", H, owner.T)))
+		fv.setHeap(st, h, sx("store", H, owner.T, "true"))
+		// other goroutines may have updated the guarded fields since our last critical section
+		ss := fv.th.sortOf(structT)
+		stt := structT.Underlying().(*types.Struct)
+		for _, g := range fv.guardsOf(structT) {
+			if g.By != lockField {
+				continue
+			}
+			for i := 0; i < stt.NumFields(); i++ {
+				f := stt.Field(i)
+				if f.Name() != g.Field {
+					continue
+				}
+				fs := fv.th.sortOf(f.Type())
+				fh := fv.declFieldHeap(ss, f.Name(), fs)
+				F := fv.getHeap(st, fh)
+				before := sx("select", F, owner.T)
+				nv := fv.havocVal(st, "shared$"+f.Name(), f.Type())
+				if fs == SRef {
+					// write-once: a non-nil pointer stays what it was
+					fv.addFact(st, mkImp(mkNot(mkEq(before, "nil")), mkEq(nv.T, before)))
+					// the pointee of a published pointer may have been written by the publishing critical section only:
+					// it is not modified afterwards (pointee stores are checked to target freshly allocated objects)
+				}
+				fv.setHeap(st, fh, sx("store", F, owner.T, nv.T))
+			}
+		}
+		fv.lockSnap = st.clone()
+		return nil, true
+	}
+	fv.oblig(st, "lock", fmt.Sprintf("lock:held@%d", k), "Unlock() of a mutex held by this goroutine", sx("select", H, owner.T))
+	fv.setHeap(st, h, sx("store", H, owner.T, "false"))
+	return nil, true
+}
+
+// guardedAccess: reading or writing a guarded field requires the lock.
+func (fv *FuncVC) guardedAccess(st *State, structT types.Type, field string, base Val, text string) {
+	if fv.pureMode > 0 {
+		return
+	}
+	for _, g := range fv.guardsOf(structT) {
+		if g.Field != field {
+			continue
+		}
+		h := heldHeap(structT, g.By)
+		fv.heapDecl(h, arraySort(SRef, SBoolS))
+		k := fv.nextOrd("lock:" + field)
+		fv.oblig(st, "lock", fmt.Sprintf("lock:%s@%d", field, k), "access to guarded field "+text+" while holding "+g.By, sx("select", fv.getHeap(st, h), base.T))
+	}
+}
+
+// guardedStore: write-once discipline of guarded pointer fields.
+func (fv *FuncVC) guardedStore(st *State, structT types.Type, field string, base Val, old, nv Val, text string) {
+	for _, g := range fv.guardsOf(structT) {
+		if g.Field != field || nv.S != SRef {
+			continue
+		}
+		k := fv.nextOrd("lockw:" + field)
+		fv.oblig(st, "lock", fmt.Sprintf("lock:writeonce:%s@%d", field, k), "guarded pointer "+text+" is written only while nil, with a non-nil value (a cached probe result is never dropped)",
+			mkAnd(mkEq(old.T, "nil"), mkNot(mkEq(nv.T, "nil"))))
+	}
+}
+
+// guardedPointee: *x.f where f is a guarded pointer field — the pointee is shared too.
+func (fv *FuncVC) guardedPointee(st *State, ptrExpr ast.Expr, p Val) {
+	se, ok := ast.Unparen(ptrExpr).(*ast.SelectorExpr)
+	if !ok {
+		return
+	}
+	sel := fv.info.Selections[se]
+	if sel == nil || sel.Kind() != types.FieldVal {
+		return
+	}
+	t := types.Unalias(fv.typeOf(se.X))
+	pt, ok := t.Underlying().(*types.Pointer)
+	if !ok {
+		return
+	}
+	structT := types.Unalias(pt.Elem())
+	for _, g := range fv.guardsOf(structT) {
+		if g.Field != se.Sel.Name {
+			continue
+		}
+		owner := fv.eval(se.X, st)
+		h := heldHeap(structT, g.By)
+		fv.heapDecl(h, arraySort(SRef, SBoolS))
+		k := fv.nextOrd("lockp:" + g.Field)
+		fv.oblig(st, "lock", fmt.Sprintf("lock:pointee:%s@%d", g.Field, k), "access to the pointee of guarded field "+fv.text(ptrExpr)+" while holding "+g.By, sx("select", fv.getHeap(st, h), owner.T))
+	}
+}
+
+// exec.Command(<args>).Run(): ghost counter per command line (non-constant arguments are
+// abstracted to "%"), plus the error of the last run. Assumed: Run starts the process once.
+func execKey(fv *FuncVC, call *ast.CallExpr) (string, bool) {
+	se, ok := ast.Unparen(call.Fun).(*ast.SelectorExpr)
+	if !ok {
+		return "", false
+	}
+	inner, ok := ast.Unparen(se.X).(*ast.CallExpr)
+	if !ok {
+		return "", false
+	}
+	f, ok := fv.calleeOf(inner).(*types.Func)
+	if !ok || f.FullName() != "os/exec.Command" {
+		return "", false
+	}
+	key := ""
+	for i, a := range inner.Args {
+		if i > 0 {
+			key += " "
+		}
+		if tv, ok := fv.info.Types[a]; ok && tv.Value != nil {
+			key += constantString(tv)
+		} else {
+			key += "%"
+		}
+	}
+	return key, true
+}
+
+func (fv *FuncVC) execKeyRef(key string) string {
+	name := "execkey$" + sanitize(key)
+	if !fv.th.declSeen[name] {
+		fv.th.declConst(name, SRef)
+		for _, other := range fv.execKeys {
+			fv.th.axioms = append(fv.th.axioms, mkNot(mkEq(name, other)))
+		}
+		fv.execKeys = append(fv.execKeys, name)
+	}
+	return name
+}
+
+func (fv *FuncVC) execRun(call *ast.CallExpr, st *State) ([]Val, bool) {
+	key, ok := execKey(fv, call)
+	if !ok {
+		return nil, false
+	}
+	// evaluate the non-constant arguments (for their safety obligations)
+	inner := ast.Unparen(ast.Unparen(call.Fun).(*ast.SelectorExpr).X).(*ast.CallExpr)
+	for _, a := range inner.Args {
+		fv.eval(a, st)
+	}
+	fv.usedExterns["os/exec (intrinsic): exec.Command(argv).Run() starts the process once: ghost counter runs(argv)++ and returns an arbitrary error value recorded as lasterr(argv)"] = true
+	kr := fv.execKeyRef(key)
+	fv.heapDecl("G$runs", arraySort(SRef, SInt))
+	fv.heapDecl("G$lasterr", arraySort(SRef, SRef))
+	R := fv.getHeap(st, "G$runs")
+	fv.setHeap(st, "G$runs", sx("store", R, kr, sx("+", sx("select", R, kr), "1")))
+	err := fv.th.freshConst("runerr", SRef)
+	fv.setHeap(st, "G$lasterr", sx("store", fv.getHeap(st, "G$lasterr"), kr, err))
+	return []Val{{err, SRef, fv.typeOf(call)}}, true
+}
